@@ -33,6 +33,24 @@ type AuthNode struct {
 	Gen   int
 	// SlowBy delays every reply by that much simulated time (fault)
 	SlowBy time.Duration
+	// DBDelay / DBSlowCalls: the next DBSlowCalls password look-ups take DBDelay each (fault)
+	DBDelay     time.Duration
+	DBSlowCalls int
+}
+
+// slowDB is the user database behind the verifier, with an optional delay per look-up (a
+// directory or disk that takes its time): DBDelay of simulated time, counted down by DBSlowCalls.
+type slowDB struct {
+	n  *AuthNode
+	db interface{ GetPassword(string) string }
+}
+
+func (d *slowDB) GetPassword(user string) string {
+	if d.n.DBSlowCalls > 0 && d.n.DBDelay > 0 {
+		d.n.DBSlowCalls--
+		time.Sleep(d.n.DBDelay)
+	}
+	return d.db.GetPassword(user)
 }
 
 type AuthCall struct {
@@ -100,7 +118,7 @@ func (n *AuthNode) start() {
 	l := n.W.S.Listen(n.Sock)
 	l.Auto = true
 	n.srv = grpc.NewServer()
-	n.impl = &authImpl{n: n, ntlm: ntlm.NewNTLMAuth(database.NewConfig(n.Users))}
+	n.impl = &authImpl{n: n, ntlm: ntlm.NewNTLMAuth(&slowDB{n: n, db: database.NewConfig(n.Users)})}
 	auth.RegisterAuthenticateServer(n.srv, n.impl)
 	srv := n.srv
 	go srv.Serve(l)
